@@ -17,6 +17,7 @@ class Runner:
         s.omp = omp
         s.worlds = {}
         s.par = []          # parallel-region summaries of the last call (omp mode)
+        s.leaks = []
 
     def world(s, cap, nthreads, ext=1):
         k = (cap, nthreads, ext)
@@ -91,9 +92,7 @@ class Runner:
             return ('refuted', '; '.join(bad), None)
         if dstmode == 'other' and any(r is src for r, o, sz in I.writes):
             return ('refuted', 'the source buffer is written although the destination is a different buffer', None)
-        lk = W.leaks(base_heap)
-        if lk:
-            return ('refuted', 'memory allocated by the call is not released: %s' % [r.name for r in lk], None)
+        s.leaks = [r.name for r in W.leaks(base_heap)]      # information only: the property speaks of matching deallocators
         if W.ctx.violations:
             v = W.ctx.violations[0]
             return ('refuted', 'kernel precondition: %s %s' % (v['callee'], v['detail']), None)
@@ -138,10 +137,7 @@ class Runner:
             return ('refuted', '; '.join(bad), None)
         if not inplace and any(r is inp for r, o, sz in I.writes):
             return ('refuted', 'the input buffer is written although the output is a different buffer', None)
-        lk = [r for r in W.leaks(base_heap) if r.owner != W.names.get('computeR')]
-        lk = [r for r in lk if r.alloc == 'malloc']
-        if lk:
-            return ('refuted', 'memory allocated by the call is not released: %s' % [r.name for r in lk], None)
+        s.leaks = [r.name for r in W.leaks(base_heap) if r.alloc == 'malloc']      # information only
         return None
 
 
@@ -169,6 +165,13 @@ def ntt_configs(tier, seed=0):
             if c[0] <= 8 or (i + seed) % 2 == 0:
                 keep.append(c)
         out = keep
+    # wide grid: many column counts (all residues mod 4 and 8, both sides of the SIMD widths) on small transforms
+    for ncols in (2, 4, 5, 6, 7, 8, 9, 10, 12, 13, 16, 17):
+        for cap, n in ((4, 4), (8, 4), (8, 8), (2, 2)):
+            for nphase in (1, 3):
+                for nblock in (1, 2, 3, ncols):
+                    for buf, dstmode in ((False, 'other'), (True, 'src'), (True, 'null')):
+                        out.append((cap, n, ncols, nphase, nblock, buf, dstmode, 1))
     # degenerate shapes
     for cap in (4,):
         out.append((cap, 0, 2, 3, 1, False, 'other', 1))
@@ -197,6 +200,12 @@ def ext_configs(tier, seed=0):
         N *= 2
     if tier == 'quick':
         out = [c for i, c in enumerate(out) if c[2] <= 8 or (i + seed) % 3 == 0]
+    for ncols in (2, 4, 5, 6, 7, 8, 9, 12, 13, 17):
+        for capN, N, Next in ((4, 4, 8), (2, 2, 8), (4, 4, 4), (8, 4, 16)):
+            for nphase in (1, 2, 3):
+                for nblock in (1, 2, 3, ncols):
+                    for buf in (False, True):
+                        out.append((capN, N, Next, ncols, nphase, nblock, buf, 1, True))
     return out
 
 
